@@ -188,15 +188,25 @@ def h_spi_reuse():
     return ['spi_reuse', 'cookie']
 
 
-def h_threshold(k_half_open, k_established, history='none'):
+def h_threshold(k_half_open, k_established, history='none', same_spi=False):
+    """same_spi: the half-open IKE_SAs all come from ONE source that keeps its initiator SPI (retransmissions of one request, or the request with
+    another nonce): each of them cost the responder a DH computation and an IKE_SA, so each of them counts"""
     from symx import core
     eng = core.engine()
     m, ik = MODS['message'], MODS['ikesa']
     S = ik.IkeSa.State
     c = world.Ctl()
     c.ctl.cookie_threshold = 10 ** 6          # the history is built without cookies; the threshold under test is set afterwards
+    first = None
     for i in range(k_half_open):
-        c.handshake(c.new_initiator(), upto=2)
+        if same_spi and first is not None:
+            base = m.Message.parse(bytes(first.last_sent))
+            if same_spi == 'nonce':
+                base.payloads = [m.PayloadNONCE(bytes([i]) * 16) if x.type == m.Payload.Type.NONCE else x for x in base.payloads]
+            c.dispatch(base.to_bytes())
+            continue
+        first = c.new_initiator()
+        c.handshake(first, upto=2)
     for i in range(k_established):
         c.handshake(c.new_initiator(), upto=4)
     # IKE_SAs that came and went before: established and deleted by the peer / rekeyed (and the old one deleted)
@@ -319,6 +329,10 @@ def build_instances(tier):
                  ('deleted', 'deleted+deleted', 'deleted+deleted+deleted', 'rekeyed', 'rekeyed+deleted', 'rekeyed+rekeyed')):
         for k in ((1, 2) if tier == 'quick' else (0, 1, 2, 5)):
             inst.append(Instance(f'threshold half_open={k} history={hist}', h_threshold, (k, 0, hist), native=nat(h_threshold),
+                                 must_reach=[('armed', lambda o: o == ['threshold', 'armed']), ('open', lambda o: o == ['threshold', 'open'])]))
+    for mode in ('retransmitted', 'nonce'):
+        for k in ((2, 3) if tier == 'quick' else (2, 3, 5, 8, 12)):
+            inst.append(Instance(f'threshold half_open={k} one source, one initiator SPI ({mode})', h_threshold, (k, 1, 'none', mode), native=nat(h_threshold),
                                  must_reach=[('armed', lambda o: o == ['threshold', 'armed']), ('open', lambda o: o == ['threshold', 'open'])]))
     for cl in ((1, 32) if tier == 'quick' else (1, 8, 20, 32, 64)):
         inst.append(Instance(f'initiator cookie_len={cl}', h_initiator, (cl,), native=nat(h_initiator)))
